@@ -46,3 +46,13 @@ def graph_unchanged(g, old):
     if old.get("latents") is not None:
         f.append(z3.ForAll([a], g.fields["latents"].mem[a] == old["latents"][a]))
     return z3.And(*f)
+
+
+def havoc_graph(g, tag="hv", latents=True):
+    """fresh abstract state for a graph object that a callee may have changed (same object identity)"""
+    from vf.pyvc.lib import RelSort
+    g.fields["@nodes"] = fresh(tag + "_nodes", set_sort(Atom))
+    g.fields["@E"] = fresh(tag + "_E", RelSort)
+    if latents and "latents" in g.fields and g.fields["latents"].mem is not None:
+        g.fields["latents"].mem = fresh(tag + "_lat", set_sort(Atom))
+        g.fields["latents"].items = None
